@@ -168,7 +168,7 @@ def main():
     for comp in ("user", "password", "path", "query", "fragment"):
         toks = [t for t in R.TOKENS if t not in R.EXCLUDE[comp]]
         if a.tier == "quick" and comp != "path":
-            toks = toks[::2] + ["%2F", "%25", "%3D", "%26"]
+            toks = toks[::2] + ["%2F", "%25", "%3D", "%26", "%2B", "+"]
         # thorough: sequences of three tokens in the path and in the query (where the three schemes do most of their work)
         for s in R.component_strings(comp, maxlen, toks):
             urls.extend(hot_urls(comp, s))
